@@ -145,6 +145,48 @@ def writes_via_derived(fn, q):
     return out
 
 
+def writes_via_param(prog, callee, idx, depth=0):
+    """Does callee write through its idx-th (pointer) parameter?  Returns a
+    description or None.  Follows the parameter into further library calls."""
+    if callee is None or idx >= len(callee.params) or depth > 3:
+        return None
+    pd = callee.params[idx]["d"]
+    seeds = {pd: ("parameter " + callee.params[idx]["n"], "&" in callee.params[idx]["t"])}
+    # locals derived from the parameter
+    for _ in range(3):
+        for i in callee.walk():
+            st = callee.s(i)
+            if st["k"] == "DeclStmt":
+                for d in st["decls"]:
+                    if d["d"] not in seeds and "init" in d and ("*" in d["t"] or "&" in d["t"]) and purity.nonconst_pointee(d["t"]):
+                        if any(callee.s(j)["k"] == "DeclRefExpr" and callee.s(j)["ref"]["d"] in seeds for j in callee.walk(d["init"])):
+                            seeds[d["d"]] = ("parameter " + callee.params[idx]["n"], "&" in d["t"])
+    for i in callee.walk():
+        st = callee.s(i)
+        tgt = None
+        if st["k"] in ("BinaryOperator", "CompoundAssignOperator") and st["op"].endswith("=") and st["op"] not in ("==", "!=", "<=", ">="):
+            tgt = st["c"][0]
+        elif st["k"] == "UnaryOperator" and st["op"] in ("++", "--"):
+            tgt = st["c"][0]
+        if tgt is not None:
+            r = purity.lvalue_root(callee, tgt, seeds)
+            if r[0] == "doc":
+                return "%s: %s" % (callee.short, callee.text(i))
+        if st["k"] in P.CALL_KINDS and "callee" in st:
+            nm = st["callee"]["q"].split("::")[-1]
+            args = st.get("args", [])
+            for k, a in enumerate(args):
+                sa = callee.s(callee.strip(a, casts=True))
+                if sa["k"] == "DeclRefExpr" and sa["ref"]["d"] in seeds:
+                    if nm in ("memcpy", "memmove", "memset", "strcpy", "read", "readBytes") and k == 0:
+                        return "%s: %s" % (callee.short, callee.text(i))
+                    sub = prog.fns.get(st["callee"]["key"])
+                    w = writes_via_param(prog, sub, k, depth + 1)
+                    if w:
+                        return w
+    return None
+
+
 def classify_use(fn, i):
     """How is l-value i used?  Walk up the parents."""
     cur = i
@@ -160,7 +202,7 @@ def classify_use(fn, i):
             if ck == "LValueToRValue":
                 return "read"
             if ck in ("ArrayToPointerDecay", "NoOp", "DerivedToBase",
-                      "UncheckedDerivedToBase"):
+                      "UncheckedDerivedToBase", "BitCast"):
                 cur = a
                 continue
             return "other:" + str(ck)
@@ -207,6 +249,9 @@ def classify_use(fn, i):
                 return "method:" + callee.get("q", "?")
             if t.startswith("const ") and ("*" in t):
                 return "read"
+            args = st.get("args", [])
+            if cur in args and "callee" in st:
+                return "escape:arg%d:%s" % (args.index(cur), st["callee"]["key"])
             return "escape:" + st.get("callee", {}).get("q", "?")
         if k in ("ReturnStmt",):
             t = fn.s(cur).get("t", "")
@@ -320,6 +365,13 @@ def run(ctx, prog):
                 dw = []
                 for efn in set(x[0] for x in esc):
                     dw += [(efn, a, b) for a, b in writes_via_derived(efn, g["q"])]
+                if not dw:
+                    for efn, ei, u in esc:
+                        if u.startswith("escape:arg"):
+                            _, argn, ckey = u.split(":", 2)
+                            w = writes_via_param(prog, prog.fns.get(ckey), int(argn[3:]))
+                            if w:
+                                dw.append((efn, ei, "its address is passed to a function that writes through it (%s)" % w))
                 if dw:
                     efn, a, b = dw[0]
                     verdict = False
